@@ -191,13 +191,14 @@ MANIFEST_ENTRY = {
     'technique': 'bounded symbolic execution (CrossHair/z3) of the real HTTP reader on symbolic bytes and on selector-built '
                  'mutations of valid chunked messages (spin detector in the stream stub); exhaustive path exploration of the real '
                  'request handler, path registry, middleware and dispatcher over selector-chosen targets, framings and stubbed '
-                 'reader/handler outcomes',
+                 'reader/handler outcomes; entity handling: the real MessageReader + libxml2 on selector-composed DOCTYPE documents',
     'text': 'For every byte string up to 3 bytes (thorough: also every string of <= 5 framing tokens) and every single-point mutation/truncation of small valid chunked '
             'messages, _read_dechunk terminates with bytes or DechunkError; for the cross product of framing headers the body '
             'readers terminate with bytes or a documented rejection; for every request target of <= 4 tokens and every '
             'combination of reader/dispatcher/handler outcome do_POST/do_GET produce exactly one status line and let no exception '
-            'escape, and a rejected request reaches no registered handler.',
-    'note': 'Trusted: CrossHair/z3 path exhaustion; the stream, header, XML and socket stubs listed per obligation. XML parsing '
-            '(entities, external fetches, schema) is libxml2 and outside; MDIB/subscription immutability is claimed only through '
+            'escape, and a rejected request reaches no registered handler; a document with a DOCTYPE (6 kinds x 3 reference places x '
+            '4 parse sites) is refused or handed on without replacement text / fetched content.',
+    'note': 'Trusted: CrossHair/z3 path exhaustion; the stream, header, XML and socket stubs listed per obligation. XML '
+            'well-formedness and schema validation are libxml2 and outside; entities are decided on a document pool only; MDIB/subscription immutability is claimed only through '
             '"no handler reached".',
 }
